@@ -45,17 +45,26 @@ Proof. exact finished_means_ran. Qed.
 Print Assumptions C04_finished_means_ran.
 
 (* The handlers: in every execution ls1 ++ HBegin :: ls2 that reaches Done (not a dry run) - with or without stop
-   requests, with or without timeout: no handler starts before HBegin; after HBegin no label of the scheduling loop or
-   of a step worker occurs (every step has ended: at HBegin every worker is gone); and the handlers started are, in
-   this order and each once, exactly the configured ones among [handler of the outcome at HBegin; onExit] - onExit last. *)
+   requests, with or without timeout: no handler's turn comes before HBegin; after HBegin no label of the scheduling
+   loop or of a step worker occurs (every step has ended: at HBegin every worker is gone); and the handlers whose turn
+   comes (hturns: the handler is started, or the set-up of its node fails and it is marked failed without running) are,
+   in this order and each once, exactly the configured ones among [handler of the outcome at HBegin; onExit] - onExit
+   last.  A handler that cannot be set up does not take the later ones with it. *)
 Theorem C04_handlers : forall c : cfg, norepeat c ->
   forall ls1 ls2 s1 s2 s3,
   run c (init c) ls1 = Some s1 -> step c s1 HBegin = Some s2 -> run c s2 ls2 = Some s3 ->
   pc s3 = LDone -> dry c = false ->
-  hstarts ls1 = [] /\ hstarts ls2 = handlers_for c s1 /\
+  hturns ls1 = [] /\ hturns ls2 = handlers_for c s1 /\
   forallb (fun l => negb (is_node_label l)) ls2 = true /\ gone c s1.
 Proof. exact handlers_trace. Qed.
 Print Assumptions C04_handlers.
+
+(* ... and the handlers whose command is started (hstarts) are, in every run of every configuration, exactly those
+   among them whose set-up does not fail. *)
+Theorem C04_handlers_started : forall (c : cfg) ls s s', run c s ls = Some s' ->
+  hstarts ls = filter (fun h => negb (hsfail c h)) (hturns ls).
+Proof. exact starts_of_turns. Qed.
+Print Assumptions C04_handlers_started.
 
 Theorem C04_handlers_for_outcome : forall (c : cfg) s, exists x, handlers_for c s = filter (hon c) (x ++ [HExit]) /\
   x = match overall c s with OSuccess => [HSuccess] | OError => [HFailure] | OCancel => [HCancel] | _ => [] end.
@@ -125,3 +134,14 @@ Example C04_done_nil_repaired :
   exists s, Reach one_step_nodone s /\ canceled s = true /\ lasterr s = true /\ sigq s = [] /\
     st (nd s 0) = NCancel /\ outs (nd s 0) = [false] /\ overall one_step_nodone s = OCancel.
 Proof. exact done_nil_repaired. Qed.
+
+(* (5) A handler that cannot be set up (HSetupFail): the step fails, onFailure's node cannot be set up - it is marked
+   failed without running -, and onExit still runs, last; the outcome stays failed. *)
+Example C04_handler_setup_failure :
+  norepeat hsf_cfg /\
+  exists s1 s2 s3, run hsf_cfg (init hsf_cfg) hsf_pre = Some s1 /\ step hsf_cfg s1 HBegin = Some s2 /\
+    run hsf_cfg s2 hsf_post = Some s3 /\ pc s3 = LDone /\ overall hsf_cfg s1 = OError /\
+    hturns hsf_post = [HFailure; HExit] /\ hstarts hsf_post = [HExit] /\
+    hs (hst s3 HFailure) = NError /\ hatt (hst s3 HFailure) = 0 /\ hs (hst s3 HExit) = NSuccess /\
+    step hsf_cfg s2 (HStart HFailure) = None /\ overall hsf_cfg s3 = OError.
+Proof. exact handler_setup_failure_ok. Qed.
